@@ -1,3 +1,4 @@
+import BlochVerif.Life.Gc
 import BlochVerif.Gc.Sim
 /-!
 # C11 — the cycle collector is unobservable under every schedule
@@ -41,6 +42,22 @@ theorem any_two_schedules_agree (s1 s2 : Nat → Bool) (ops : List Op) : runOps 
 theorem schedule_unobservable_prims (sched : Nat → Bool) (ps : List Prim) (k k' : Nat) (s1 s2 : St)
     (h : Sim s1 s2) : (exec sched k ps s1).out = (exec (fun _ => false) k' ps s2).out :=
   (exec_sim sched ps k k' s1 s2 h).out
+
+/-! ### with destructors: reference counting and the collector together (`Life/Gc.lean`)
+
+In `Life.Model` every object carries its reference count and dies — destructor line, then its fields are released —
+when the count reaches zero; `Life.lcollect` clears the fields of what no slot reaches without touching any count (the
+implementation parks references from garbage to live objects in `m_limbo`).  For every program of the heap language and
+every schedule `Nat → Bool`: -/
+theorem schedule_unobservable_with_destructors (sched : Nat → Bool) (ops : List Op) :
+    (Life.runOpsS sched ops).out = (Life.runOps ops).out ∧
+    Life.finalDestructors (Life.runOpsS sched ops) = Life.finalDestructors (Life.runOps ops) :=
+  Life.schedule_unobservable_with_destructors sched ops
+
+/-- a collection really clears cyclic garbage in this model too, and leaves its counts alone -/
+example : (Life.lcollect { heap := [⟨1, some 1, none, 1, false⟩, ⟨2, some 0, none, 1, false⟩, ⟨3, none, none, 1, false⟩],
+                            slots := [some 2], out := [] }).heap =
+    [⟨1, none, none, 1, false⟩, ⟨2, none, none, 1, false⟩, ⟨3, none, none, 1, false⟩] := by decide
 
 /-! ### non-vacuity: the collector does clear cyclic garbage, and programs do print -/
 example : collect [⟨1, some 1, none⟩, ⟨2, some 0, none⟩, ⟨3, none, none⟩] [2] =
